@@ -1,7 +1,7 @@
 (* C02 property theorems. This file contains only statements closed by
    [exact lemma] and Print Assumptions. *)
 From V Require Import Common.Base C02.Graph C02.Order C02.SpecESM C02.Wrap C02.Resolve C02.ResolveSpec
-  C02.DataUrl C02.SpecDataUrl C02.OrderProofs C02.OrderEsmProofs C02.ResolveProofs C02.WrapProofs C02.DataUrlProofs C02.ClassifyProofs C02.Emit C02.EmitProofs.
+  C02.DataUrl C02.SpecDataUrl C02.OrderProofs C02.OrderEsmProofs C02.ResolveProofs C02.WrapProofs C02.DataUrlProofs C02.ClassifyProofs C02.Emit C02.EmitProofs C02.ResolveChainProofs.
 From Coq Require Import Permutation.
 
 (* every file of the chunk is emitted at most once ("every module body runs at most once") *)
@@ -163,3 +163,23 @@ Proof.
   rewrite copy_all_nodup by (auto; intros x _ []). auto.
 Qed.
 Print Assumptions exports_three_formats_same_partial.
+
+(* Unbounded, for graphs WITHOUT export stars: for every finite graph of ES modules (any size,
+   any depth of "export {a as b} from" / re-exported imports / "export * as ns") that meets the
+   boolean side condition [chain_scope g rk] - no export star, plain import records, every
+   named import targets a file with an export statement (excludes refuted shape C), and the rank
+   certificate [rk] decreases along every indirect export (excludes refuted shape B) - the
+   linker's verdict for an import (binding found / no matching export) is the one ECMA-262
+   ResolveExport gives.  [kinds] is the exports-kind assignment after classification; the
+   hypothesis says every file stayed an ES module.
+   Full statement (resolve_is_spec_partial for graphs WITH export stars, side condition
+   single_alias && ranked && named_targets_export): still only proved on the bounded domains above. *)
+Theorem resolve_is_spec_partial_starfree : forall g rk kinds s ref ni r ev R,
+  chain_scope g rk = true ->
+  (forall i, kinds i = EESM) ->
+  import_of g (s, ref) = Some ni ->
+  match_import g kinds (resolved_of g kinds) true (s, ref) = Some (r, ev) ->
+  spec_import g s ni = Some R ->
+  mres_verdict r ev = resolution_verdict g R.
+Proof. intros g rk kinds s ref ni r ev R Hs Hk. exact (starfree_agree g rk kinds Hs Hk s ref ni r ev R). Qed.
+Print Assumptions resolve_is_spec_partial_starfree.
